@@ -119,6 +119,9 @@ namespace options
 
     void option::prepare()
     {
+        // forget the result of a previous parse
+        value_ = nitro::lang::optional<std::string>();
+        dirty_ = false;
     }
 
     void option::check()
